@@ -5,7 +5,9 @@ from pyvc.spec import Contract, P, H, CANARY
 GW = TObj("Gateway")
 MSG = TObj("Message")
 BUFT = TObj("MessageBuffer")
-GHOST_LOG = ["ghost.wlen", "ghost.wat", "ghost.wdom"]
+GHOST_LOG = ["ghost.wlen", "ghost.wat", "ghost.wdom", "ghost.wfail"]
+NOFAIL = "g('ghost.wfail') == old(g('ghost.wfail'))"  # no transport write failed during the call
+FAILED = "g('ghost.wfail') >= old(g('ghost.wfail')) + 1"  # at least one did
 GHOST_ALL = GHOST_LOG + ["ghost.wcnt", "ghost.clock_now"]
 
 
@@ -15,8 +17,9 @@ def register(w):
         "aiomysensors.transport.Transport.write",
         params={"self": TObj("Transport"), "decoded_message": TStr},
         modifies=GHOST_LOG,
-        ensures=[H("write/appended", "appended(decoded_message) and wdom_recorded()")],
-        raises={"TransportError": [H("write/failed-not-written", "log_unchanged() and unchanged('ghost.wdom')")]},
+        ensures=[H("write/appended", "appended(decoded_message) and wdom_recorded()"), H("write/no-failure", NOFAIL)],
+        raises={"TransportError": [H("write/failed-not-written", "log_unchanged() and unchanged('ghost.wdom')"),
+                                   H("write/failure-counted", "g('ghost.wfail') == old(g('ghost.wfail')) + 1")]},
         wf=False, check_wf=False)
     w.assumed.add("aiomysensors.transport.Transport.write")
 
@@ -39,8 +42,13 @@ def register(w):
             P("C12/parked", "implies(parks, key in buf.set_messages and buf.set_messages[key] is message "
                             "and log_unchanged() and unchanged('ghost.wdom', 'ghost.wcnt'))"),
             P("C12/written", "implies(not parks, appended(enc(message)) and wdom_recorded() and wcnt_bumped(message) "
-                             "and same_dict(buf.set_messages))"),
+                             "and dict_only_at(buf.set_messages, key))"),
+            # C07 "carrying the most recently sent value": a set command written directly supersedes an older one parked for its key
+            P("C07/direct-write-supersedes-parked-value", "implies(not parks and message.command == 1 and message_buffer, not (key in buf.set_messages))"),
+            H("C12/other-commands-leave-the-buffer-alone", "implies(not parks and not (message.command == 1 and message_buffer), same_dict(buf.set_messages))"),
+            P("C08+C12/returns-only-if-no-write-failed", NOFAIL),
         ],
         raises={"TransportError": [P("C12/failed-nothing-written", "log_unchanged() and unchanged('ghost.wdom', 'ghost.wcnt') "
-                                                                   "and same_dict(buf.set_messages) and not parks")]},
+                                                                   "and same_dict(buf.set_messages) and not parks"),
+                                   H("C12/failure-counted", FAILED)]},
     )
